@@ -208,6 +208,22 @@ impl<'a> B<'a> {
         let a = self.pick_arr()?;
         let b = self.partner(&a)?;
         let (x, y) = if self.rng.bool() { (a, b) } else { (b, a) };
+        if self.rng.chance(1, 8) {
+            // both operand orders of one operation over the same two nodes, both kept alive
+            let which = self.rng.below(3);
+            let mk = |g: &Graph, p: Node, q: Node| match which {
+                0 => g.add(p, q),
+                1 => g.subtract(p, q),
+                _ => g.multiply(p, q),
+            };
+            let name = ["Add", "Subtract", "Multiply"][which as usize];
+            let r1 = mk(&self.g, x.clone(), y.clone());
+            let n1 = self.accept(r1, name)?;
+            let r2 = mk(&self.g, y, x);
+            let n2 = self.accept(r2, name)?;
+            let r = self.g.create_tuple(vec![n1, n2]);
+            return self.accept(r, "CreateTuple");
+        }
         match self.rng.below(3) {
             0 => {
                 let r = self.g.add(x, y);
@@ -1109,8 +1125,75 @@ impl<'a> B<'a> {
         }
     }
 
+    /// Near-miss proposals: shape-sensitive operations on arbitrary operands of one scalar type,
+    /// WITHOUT pre-filtering for compatible shapes. Almost all of these must be rejected by type
+    /// inference; one that is wrongly accepted shows up as an evaluation panic, a value of the
+    /// wrong type, or a disagreement with the NumPy model.
+    pub fn p_near_miss(&mut self) -> Option<Node> {
+        let a = self.pick_where(|t| matches!(t, Type::Array(_, _)))?;
+        let ta = self.ty(&a);
+        let st = ta.get_scalar_type();
+        let rank = shape_of(&ta).len();
+        let same_rank = self.rng.bool();
+        let b = self.pick_where(|t| match t {
+            Type::Array(s, st2) => *st2 == st && (!same_rank || s.len() == rank),
+            _ => false,
+        })?;
+        let c = if self.rng.bool() { Some(self.pick_where(|t| matches!(t, Type::Array(_, st2) if *st2 == st))?) } else { None };
+        let mut nodes = vec![a.clone(), b.clone()];
+        if let Some(c) = c {
+            nodes.push(c);
+        }
+        if self.rng.bool() {
+            nodes.reverse();
+        }
+        match self.rng.below(9) {
+            0 | 1 | 2 => {
+                let axis = self.rng.below(rank as u64 + 1);
+                let r = self.g.concatenate(nodes, axis);
+                self.accept(r, "Concatenate")
+            }
+            3 => {
+                let k = nodes.len() as u64;
+                let r = self.g.stack(nodes, vec![k]);
+                self.accept(r, "Stack")
+            }
+            4 => {
+                let r = self.g.matmul(nodes[0].clone(), nodes[1].clone());
+                self.accept(r, "Matmul")
+            }
+            5 => {
+                let r = self.g.dot(nodes[0].clone(), nodes[1].clone());
+                self.accept(r, "Dot")
+            }
+            6 => {
+                let (x, y) = (self.rng.bool(), self.rng.bool());
+                let r = self.g.gemm(nodes[0].clone(), nodes[1].clone(), x, y);
+                self.accept(r, "Gemm")
+            }
+            7 => {
+                let r = match self.rng.below(3) {
+                    0 => self.g.add(nodes[0].clone(), nodes[1].clone()),
+                    1 => self.g.multiply(nodes[0].clone(), nodes[1].clone()),
+                    _ => self.g.subtract(nodes[0].clone(), nodes[1].clone()),
+                };
+                self.accept(r, "Arith")
+            }
+            _ => {
+                let t0 = self.ty(&nodes[0]);
+                let r = self.g.create_vector(t0, nodes);
+                let v = self.accept(r, "CreateVector")?;
+                let r = self.g.vector_to_array(v);
+                self.accept(r, "VectorToArray")
+            }
+        }
+    }
+
     /// one random step over all primitive operations
     pub fn step_any(&mut self) -> Option<Node> {
+        if self.rng.chance(1, 8) {
+            return self.p_near_miss();
+        }
         match self.rng.below(16) {
             0..=8 => self.step_mpc(),
             9 => self.p_truncate(),
